@@ -442,13 +442,16 @@ func (w *world) build(p *Program) ([]*sequence.Sequence, error) {
 }
 
 // exec runs one built sequence at top level on a fresh query.
-func realExec(s *sequence.Sequence, limit int) (res result, runaway bool, panicked any) {
+func realExec(s *sequence.Sequence, preset bool, limit int) (res result, runaway bool, panicked any) {
 	q := new(dns.Msg)
 	q.SetQuestion("c06.test.", dns.TypeA)
 	q.Id = queryID
 	qc := query_context.NewContext(q)
 	t := &tctx{sh: &sharedExec{limit: int64(limit)}}
 	qc.StoreValue(traceKey, t)
+	if preset {
+		qc.SetResponse(mkResp(1))
+	}
 	var err error
 	func() {
 		defer func() {
